@@ -1,5 +1,6 @@
 import TxVerif.Props.C03
 import TxVerif.Tie.Order
+import TxVerif.Props.C03Refine
 open TxVerif
 #print axioms writer_order
 #print axioms writer_order_last
@@ -9,3 +10,15 @@ open TxVerif
 #print axioms read_after_write
 #print axioms read_untouched
 #print axioms Tie.writer_sort_stable
+#print axioms c03_commit_publishes
+#print axioms c03_abort_restores
+#print axioms c03_failed_commit_restores
+#print axioms c03_commit_invariant_partial
+#print axioms c03_untouched_kept
+#print axioms c03_last_write
+#print axioms c03_last_write_full
+#print axioms c03_freed_gone
+#print axioms engInv_create
+#print axioms runTxn_inv
+#print axioms c03_history_partial
+#print axioms runInv_start
